@@ -18,7 +18,15 @@ namespace SymEngine
 
 static std::vector<unsigned> &sieve_primes()
 {
+#ifdef WITH_SYMENGINE_THREAD_SAFE
+    // One table per thread: iterators keep an index into the table and clear()
+    // truncates it, so a table shared between threads could not be protected
+    // by locking the individual calls.
+    static thread_local std::vector<unsigned> primes
+        = {2, 3, 5, 7, 11, 13, 17, 19, 23, 29};
+#else
     static std::vector<unsigned> primes = {2, 3, 5, 7, 11, 13, 17, 19, 23, 29};
+#endif
     return primes;
 }
 
